@@ -100,7 +100,7 @@ func zzH_C09_smt_verify_two(t *zzT) {
 //
 //zz:opt loop=40 require=returned
 //zz:quick Q=2 H=2
-//zz:thorough Q=2 H=4
+//zz:thorough Q=2 H=3
 func zzH_C09_smt_calculate_root(t *zzT) {
 	nq := t.Range("queries.len", 0, t.Param("Q", 2))
 	qs := make(QueryProofs, nq)
